@@ -60,6 +60,8 @@ func init() {
 		NotDecided:  "That a shared index receives the same value in S and S' (value-level); framing agreement between each codec's writer and Skip's grammar is checked under C05/C02 (S.skip).",
 		Assumptions: []string{"A1", "A2", "A3", "A4", "A5", "A6"},
 		Run: func(c *Ctx) {
+			// round 13: a nested value whose type lost its fields still consumes its whole body (the enclosing reader advances by the count returned)
+			ruleExactConsumption(c)
 			// round 11: holes in the index space, an emptied map value, an empty counted field at the end of the data
 			ruleIndexEnds(c)
 			ruleMapSlot(c)
